@@ -33,7 +33,8 @@ CLAIMED = {
             "TaskExecutor wrapper for all interleavings with 12 negative controls; TimedQueue / TaskExec quiescent-point LTS are replayed on "
             "the real queue / task executor (callbacks and two yield points as gates); real-time traces (40 ms unit, monotonic stamps, "
             "forced schedules + free runs) are validated by TLC with now' = ts.",
-            "Real-time runs whose own margins were missed are discarded and retried (never alarms); size bound > 0 not in the LTS replay.",
+            "Real-time runs whose own margins were missed are discarded and retried (never alarms); size bound > 0 not in the LTS replay; "
+            "PanicOnModificationsAfterShutdown is a configuration of the TaskExec LTS only.",
             "TLA+ timed spec (TLC exhaustive + impl-level models), LTS replay with gates, TLC validation of timestamped traces"),
     "C01": ("5/C01",
             "TLA+ modules define the codecs declaratively and independently of the Go code: Wire (binary serix: Enc/Dec over schemas and "
@@ -60,14 +61,16 @@ CLAIMED = {
             "of the real API must equal the model's bytes for all TLC-enumerated (schema, value) pairs of the catalogue. Reverse: for "
             "every enumerated or mutated byte string the real validating decoder accepts, acceptance must agree with the model and the "
             "re-encoding must equal b[:n].",
-            "73 catalogue types; byte strings of length <= 6 exhaustively, longer ones sampled; timestamps inside the int64-ns range.",
+            "76 catalogue types; byte strings of length <= 6 exhaustively, longer ones sampled (mutated records) or derived by TLC from the "
+            "value catalogue (unsorted encodings of every value); timestamps inside the int64-ns range.",
             "TLA+ reference encoder/decoder (TLC small-scope exhaustive), forward/reverse table replay on the real serix API"),
     "C14": ("5/C14",
             "TLA+ module Derived defines each derived value as the FUNCTION of its inputs (DerivedVariable 1/2 inputs, InheritFrom, "
             "DerivedSet union, SubtractReactive, Counter, SortedSet, WaitGroup, EvictionState); TLC exhaustive + complete LTS replay on the "
             "real objects + recorded histories (all histories); implementation-level models of SortedSet and WaitGroup for all "
             "interleavings with negative controls; free-running writers on different inputs plus 13 forced schedules (gated weight "
-            "variables, yield points) validated by TLC against DerivedRun: at quiescence derived = F(inputs) and nobody hangs.",
+            "variables, yield points) and controlled eviction runs (every acquisition of the EvictionState mutex is a stopping point) validated "
+            "by TLC against DerivedRun: at quiescence derived = F(inputs) and nobody hangs.",
             "3 elements / weights {0,1,2} / 2-3 inputs; DerivedVariable3/4 not covered; interleavings on the real code only through gates, "
             "two yield points and free running.",
             "TLA+ functional spec (TLC exhaustive, LTS replay), impl-level models, forced schedules, TLC trace validation"),
@@ -77,7 +80,8 @@ CLAIMED = {
             "negative orders and gaps is replayed on real daemon instances; DaemonImpl models stopWorkers/BackgroundWorker/Run at lock "
             "level for all interleavings with 6 negative controls; forced schedules through two yield points and free-running executions "
             "are validated by TLC against DaemonRun (no cancel before higher orders returned, equal orders together, waits complete).",
-            "Quick LTS uses orders {-1,5}, the rest in traces/thorough; orders fixed per name in DaemonImpl.",
+            "Quick LTS uses orders {-1,5}, the rest in traces/thorough (half of the configurations hand MinInt/-1/1/MaxInt to the daemon for them); "
+            "orders fixed per name in DaemonImpl.",
             "TLA+ quiescent-point spec (TLC exhaustive, LTS replay with handler gates), impl-level model, TLC trace validation"),
     "C10": ("5/C10",
             "A pointer-level TLA+ heap model of container/list semantics (sentinels, next/prev/owner pointers, len; live, removed, "
@@ -111,7 +115,8 @@ CLAIMED = {
             "realm||key; TLC checks realm isolation, iteration order/prefix/stop, DeletePrefix/Clear exactness, batch last-op-wins, "
             "closed=>ErrStoreClosed and aliasing-safety exhaustively on small alphabets; the exported transition systems (all 5 "
             "views x 5 wrapper stacks x batches x 0xff/empty keys) are replayed edge by edge on the real mapdb/flushkv/debug objects, "
-            "and long random histories of the real objects are validated by TLC.",
+            "and long random histories of the real objects are validated by TLC; iterations whose consumer writes to the store through any "
+            "view (IterMut: snapshot semantics, no self-deadlock - a call that does not return within 30 s is reported as a hang).",
             "Bounds: keys of length <=2 over {0,1,255}, <=3 live keys in the LTS, 16 keys in traces; debug callback contents not modelled.",
             "TLA+ sequential spec (TLC exhaustive), LTS tour replay on real objects, TLC trace validation"),
     "C06": ("5/C06",
@@ -120,7 +125,8 @@ CLAIMED = {
             "complete LTS replay on the real objects over a fault-injecting store and failing codecs; recorded random fault histories "
             "validated by TLC; a model of the fixed Compute defect is kept as negative control.",
             "One fault per operation; fail-before-apply stores only; the 'concurrent callers are serialised' clause is covered by "
-            "TLC on the lock-level model and by free-running callers, not by forced schedules inside the critical section.",
+            "TLC on the lock-level model, by free-running callers, by forced schedules with the compute function as gate and by "
+            "controlled schedules on a cold object whose stopping points are the store's lock acquisitions.",
             "TLA+ spec with fault plans (TLC exhaustive), LTS replay with fault injection, TLC trace validation"),
     "C07": ("5/C07",
             "TLA+ module Sequence with crash/fail plans at every store-operation boundary (before/after), restarts with intervals 1..3 "
@@ -133,13 +139,14 @@ CLAIMED = {
             "TLA+ module AuthMap (contents, committed snapshot, ever-committed flag); root = injective function of contents learned by "
             "the harness across all paths of the LTS tour (equal contents via different histories => equal root bytes, different contents "
             "=> different); complete LTS replay on ads.Map and ads.Set over mapdb incl. reopen after commit, keys sharing 20-29 hash-path "
-            "bits, nil/empty values; recorded histories validated by TLC.",
+            "bits and keys that are byte prefixes of one another (incl. the empty key), nil/empty values; recorded histories validated by TLC.",
             "4 keys x 3 values; reopen asserted only at committed points; root injectivity only on everything explored.",
             "TLA+ sequential spec (TLC exhaustive), LTS tour replay with learned root table, TLC trace validation"),
     "C11": ("5/C11",
             "TLA+ modules OrderedMap, OrderedSet, SetArith: insertion order, exact diffs of Apply/AddAll/DeleteAll/Replace/Compute, set "
             "algebra and arithmetic thresholds, Encode/Decode; TLC exhaustive on a 3-element universe; complete LTS replay on the real "
-            "objects; recorded histories validated by TLC; the pre-fix Replace kept as negative control; concurrent clause: see units in props/C11.py.",
+            "objects; recorded histories validated by TLC; the pre-fix Replace kept as negative control; iterations whose consumer deletes / inserts (ForEachMut); concurrent clause: see units in props/C11.py "
+            "(linearizability histories incl. Replace with a gated view of the receiver, lock-level model, forced schedules).",
             "3-element universe; concurrency clause (no deadlock/atomicity/linearizability) decided by forced schedules and free-running "
             "histories for the method pairs listed in DESIGN.md, not for all combinations.",
             "TLA+ sequential specs (TLC exhaustive), LTS tour replay, TLC trace validation, forced schedules"),
@@ -156,7 +163,8 @@ CLAIMED = {
             "Submit / held Submit / Shutdown / Start / ShutdownComplete.Wait / WaitIsZero / task completion for 1-2 workers, cancel on/off, "
             "tasks that submit tasks, restart; TLC checks conservation, counter equation, justified waiters, shutdown completion; the "
             "complete LTS is replayed on the real pool with goroutine park detection; PoolGroup (WaitChildren/Shutdown over a 2-level tree) "
-            "likewise; free-running stress executions validated by TLC against PoolRun.",
+            "likewise; free-running stress executions (pools made directly and by a Group with explicit options, short-lived pools that are shut "
+            "down before their goroutines ran) validated by TLC against PoolRun.",
             "2 harness threads, <=3 tasks in the LTS; interleavings inside the pool's own critical sections only through the one yield "
             "point and free-running stress; one known finding (WaitGroup reuse panic on restart with a concurrent waiter).",
             "TLA+ quiescent-point spec (TLC exhaustive), gate/hook-driven LTS replay on real goroutines, TLC trace validation"),
@@ -165,7 +173,8 @@ CLAIMED = {
             "TLA+ model of StarvingMutex for ALL interleavings of 3 threads x lock/unlock scripts, plus API-level quiescent-point "
             "specs of StarvingMutex, DAGMutex, Counter and Stack waits whose complete transition systems (every arrival order of "
             "2-3 threads' calls, misuse included) are replayed on the real goroutines with park detection; free-running contention "
-            "traces (2-16 goroutines) are validated by TLC against a holders spec.",
+            "traces (2-16 goroutines) are validated by TLC against a holders spec, free-running Stack rounds (parked consumers, then producers and "
+            "condition waiters together) against StackRun: at the quiescent end nobody is blocked whose wake-up condition holds.",
             "Bounds: 3 threads, 2 entities, scripts of <= 2 pairs; interleavings inside one internal critical section are explored "
             "on the model only; trusted: TLC, goroutine park detection via runtime.Stack, adapters.",
             "TLA+ impl-level + API-level specs (TLC exhaustive), LTS replay on real goroutines, TLC trace validation"),
